@@ -606,6 +606,9 @@ pub fn gen_scn(d: &Data, r: &mut Rng, faulty: bool) -> Scn {
                 }
             } else if r.chance(1, 6) {
                 format!("gen{k}.v2.{ext}")
+            } else if r.chance(1, 12) {
+                // no extension at all (refused), possibly next to an existing gen<k>.<ext>
+                format!("gen{k}")
             } else {
                 format!("gen{k}.{ext}")
             }
